@@ -63,4 +63,88 @@ theorem pp_pdivmod_unique (a b q r : Nat) (hb : b ≠ 0) (h : a = clmul q b ^^^ 
 example : pdivmod (clmul 0b1011 0b110 ^^^ 0b11) 0b110 = (0b1011, 0b11) :=
   pp_pdivmod_unique _ 0b110 0b1011 0b11 (by decide) rfl (Or.inr (by decide))
 
+/-! ## the Euclidean gcd of the specification -/
+
+/-- `Spec.pgcd a b` divides a and b, and every common divisor divides it
+    (`PDvd d a := ∃ q, a = clmul q d`). -/
+theorem pp_pgcd_spec (a b : Nat) :
+    PDvd (pgcd a b) a ∧ PDvd (pgcd a b) b ∧ ∀ d, PDvd d a → PDvd d b → PDvd d (pgcd a b) :=
+  pgcd_spec a b
+
+/-- … and it is the only number with this property. -/
+theorem pp_pgcd_unique (g a b : Nat)
+    (h : PDvd g a ∧ PDvd g b ∧ ∀ d, PDvd d a → PDvd d b → PDvd d g) : g = pgcd a b :=
+  isPGcd_unique h (pgcd_spec a b)
+
+example : pgcd (clmul 0b111 0b1011) (clmul 0b111 0b1101) = 0b111 := by decide
+
+/-! ## ppExGCD (pp_gcd.c), value-level model `ppExGCDV` -/
+
+/-- The triple (d, da, db) returned by ppExGCD satisfies `a·da + b·db = d` — for the coefficients
+    exactly as the C computes them (da0 = 1, db0 = 0, da = 0, db = 1; parity test on da0 AND db0).
+    Consequently every common divisor of a and b divides d. -/
+theorem ppExGCDV_bezout (a b : Nat) (ha : a ≠ 0) (hb : b ≠ 0) :
+    clmul a (ppExGCDV a b).2.1 ^^^ clmul b (ppExGCDV a b).2.2 = (ppExGCDV a b).1 :=
+  exGCDV_bezout ha hb
+
+example : ppExGCDV 12 10 = (6, 1, 1) := by decide
+example : ppExGCDV 0b110110 0b1010 = (ppGCDV 0b110110 0b1010, (ppExGCDV 0b110110 0b1010).2) := by decide
+
+/-- every common divisor of a and b divides the d of ppExGCD -/
+theorem ppExGCDV_greatest (a b c : Nat) (ha : a ≠ 0) (hb : b ≠ 0)
+    (hca : ∃ q, a = clmul q c) (hcb : ∃ q, b = clmul q c) : ∃ q, (ppExGCDV a b).1 = clmul q c := by
+  obtain ⟨q1, h1⟩ := hca
+  obtain ⟨q2, h2⟩ := hcb
+  refine ⟨clmul q1 (ppExGCDV a b).2.1 ^^^ clmul q2 (ppExGCDV a b).2.2, ?_⟩
+  rw [← ppExGCDV_bezout a b ha hb, xor_clmul, clmul_assoc, clmul_assoc,
+    clmul_comm (ppExGCDV a b).2.1 c, clmul_comm (ppExGCDV a b).2.2 c, ← clmul_assoc, ← clmul_assoc,
+    ← h1, ← h2]
+
+/-
+FULL STATEMENT (not proved: needs the termination measure of the do-while loop —
+deg(odd part of u) + deg(odd part of v) decreases in every iteration — and the invariant
+"the common divisors of (u, v) are those of (aa, bb)"):
+  theorem_ppExGCDV_spec (a b) (ha : a ≠ 0) (hb : b ≠ 0) :
+      (ppExGCDV a b).1 = Spec.pgcd a b ∧ clmul a da ^^^ clmul b db = d
+  theorem_ppGCDV_spec (a b) (ha : a ≠ 0) (hb : b ≠ 0) : ppGCDV a b = Spec.pgcd a b
+Proved part: the Bezout identity and "greatest" above; `d ∣ a`, `d ∣ b` are missing.
+(Model-level evidence: 1820 pairs incl. all 1..39 × 1..39 agree with a Python reference.)
+-/
+
+/-! ## ppDivMod / ppInvMod (pp_mod.c), value-level model `ppDivModV` -/
+
+/-- ppDivMod(b, divident, a, mod) for mod with constant term 1 and deg divident < deg mod:
+    the result is 0 or satisfies `b·a ≡ divident (mod mod)` exactly (`pmod (b a) mod = divident`),
+    and deg b < deg mod (`b < 2^deg mod`).  No assumption on a. -/
+theorem ppDivModV_partial (dv a md : Nat) (hmd : md % 2 = 1) (hdv : dv < 2 ^ md.log2) :
+    (ppDivModV dv a md = 0 ∨ pmod (clmul (ppDivModV dv a md) a) md = dv)
+    ∧ ppDivModV dv a md < 2 ^ md.log2 :=
+  divModV_partial dv a md hmd hdv
+
+example : ppDivModV 0b101 0b110 0b10011 = 0b1000 ∧ pmod (clmul 0b1000 0b110) 0b10011 = 0b101 := by
+  decide
+example : ppDivModV 1 0b11 0b101 = 0 := by decide   -- gcd(x + 1, x^2 + 1) = x + 1 ≠ 1
+
+/-- ppInvMod(b, a, mod): the result is 0 or the inverse of a modulo mod, of degree < deg mod
+    (mod ≠ 1 so that deg 1 < deg mod). -/
+theorem ppInvModV_partial (a md : Nat) (hmd : md % 2 = 1) (h1 : md ≠ 1) :
+    (ppInvModV a md = 0 ∨ pmod (clmul (ppInvModV a md) a) md = 1)
+    ∧ ppInvModV a md < 2 ^ md.log2 := by
+  have hlog : 1 < 2 ^ md.log2 := by
+    have : 2 ^ 1 ≤ md := by omega
+    have := (Nat.le_log2 (by omega : md ≠ 0)).2 this
+    exact Nat.lt_of_lt_of_le (by decide : 1 < 2 ^ 1) (Nat.pow_le_pow_right (by omega) this)
+  exact divModV_partial 1 a md hmd hlog
+
+example : ppInvModV 0b110 0b10011 = 0b111 ∧ pmod (clmul 0b111 0b110) 0b10011 = 1 := by decide
+
+/-
+FULL STATEMENT (not proved; the missing part is the same termination + gcd invariant as for ppGCD):
+  theorem_ppDivModV_spec (dv a md) (hmd : md % 2 = 1) (ha : a < 2^md.log2) (hdv : dv < 2^md.log2) :
+      (pgcd a md = 1 → pmod (clmul b a) md = dv ∧ b < 2^md.log2) ∧ (pgcd a md ≠ 1 → b = 0)
+Proved (`ppDivModV_partial`): whenever the result is non-zero it IS the quotient, and it is reduced.
+Missing: gcd(a, mod) = 1 → the loop ends with v = 1 (so the result is not the fallback 0), and
+gcd ≠ 1 → v ≠ 1.
+-/
+
 end Bee2V.C05
